@@ -19,6 +19,8 @@ def gen_pred_case(rng, model=None, regime=None, kmax=8, pmax=8):
         teams = [teams[i] if i in keep else other[i] for i in range(len(teams))]
         regime = "partly_identical"
     case = dict(model=model, cfg=cfg, teams=teams, sel=None, vals=None, call={})
+    if rng.random() < 0.1:
+        case["ids"] = "shared"  # distinct objects carrying the same id string (deepcopy clones keep the id)
     return case, dict(regime=regime, k=len(teams))
 
 
